@@ -53,10 +53,14 @@ def configs(base=None):
         rates = [round(10 ** rng.uniform(-1.5, 1.5), 4) for _ in range(k - 1)]
         N = rng.choice([50, 100, 200, 400])
         states = ["A%d" % (i + 1) for i in range(k)]
-        model = {"states": [{"name": s} for s in states], "params": ["r%d" % (i + 1) for i in range(k - 1)],
+        model = {"states": [{"name": s} for s in states], "params": ["r%d" % (i + 1) for i in range(k - 1)], "state_decl": "list",
                  "processes": [{"rate": "r%d*%s" % (i + 1, states[i]), "route": "event",
                                 "trans": [{"type": "T", "o": states[i], "d": states[i + 1], "mag": "1"}]} for i in range(k - 1)]}
         t = round(rng.uniform(0.4, 1.5) / (sum(rates) / len(rates)), 6)
+        if c >= 1:
+            # declared limits that can never bind (a stage holds between 0 and N individuals): the law is unchanged
+            for s_ in model["states"][1:]:
+                s_["lim"] = [0, N]
         out.append({"id": "chain%d" % k, "kind": "chain", "model": model, "theta": rates, "x0": [N] + [0] * (k - 1), "t": t, "N": N,
                     "t0": [0.0, 1.5, 2.25][c]})        # the law depends on elapsed time only: some runs start later
     for c in range(3):
@@ -67,6 +71,10 @@ def configs(base=None):
         model = {"states": [{"name": "S"}, {"name": "I"}, {"name": "R"}], "params": ["beta", "gamma"],
                  "processes": [{"rate": "beta*S*I/%d" % N, "route": "event", "trans": [{"type": "T", "o": "S", "d": "I", "mag": "1"}]},
                                {"rate": "gamma*I", "route": "event", "trans": [{"type": "T", "o": "I", "d": "R", "mag": "1"}]}]}
+        if c >= 1:
+            model["state_decl"] = "list"
+            model["states"][2]["lim"] = [0, N]
+            model["states"][1]["lim"] = [0, N]
         out.append({"id": "sir%d" % c, "kind": "sir", "model": model, "theta": [beta, gamma], "x0": [N - i0, i0, 0], "N": N, "i0": i0,
                     "t0": [0.0, 0.0, 3.0][c]})
     out.append({"id": "pool", "kind": "pool"})
@@ -93,6 +101,10 @@ def generate(seed, tier, index):
     theta = [round(v * sc, 5) for v in base["theta"]]
     T = base["t0"] + (base["ops"][0]["T"] - base["t0"]) / sc
     cfg = {"id": "pool", "kind": "pool", "model": base["model"], "theta": theta, "x0": base["x0"], "t0": base["t0"], "T": float(round(T, 9))}
+    if theta and rng.random() < 0.35:
+        # the owner re-binds the parameters half way through the paths simulated on this object
+        cfg["theta2"] = [round(v * rng.uniform(0.6, 1.4), 5) for v in theta]
+        cfg["rebind_as"] = rng.choice(["list", "dict", "partial"])
     return {"engine": "law", "config": cfg, "chunk_seed": seed, "paths": rng.choice([4, 8, 16]), "batch": "fault_free",
             "est_events": base.get("est_events", 1000.0)}
 
@@ -164,6 +176,21 @@ def run_chunk(case):
         np.random.seed(int(case["chunk_seed"]) % (2 ** 32))
         op = {"op": "paths", "T": float(horizon), "n": 1, "exact": True, "single": True}
         for pth in range(int(case["paths"])):
+            if cfg.get("theta2") and pth == max(1, int(case["paths"]) // 2):
+                names_ = ref.param_names
+                th2 = list(cfg["theta2"])
+                how_ = cfg.get("rebind_as", "list")
+                if how_ == "dict":
+                    sess.ode.parameters = dict(zip(names_, th2))
+                elif how_ == "partial":
+                    keep_ = names_[::2]
+                    sess.ode.parameters = {nm: v for nm, v in zip(names_, th2) if nm in keep_}
+                    th2 = [v if nm in keep_ else old for nm, v, old in zip(names_, th2, sess.theta)]
+                else:
+                    sess.ode.parameters = list(th2)
+                sess.theta = th2
+                theta = th2
+                stats["rebinds"] = stats.get("rebinds", 0) + 1
             sess.r.reset_log()
             # every other path of a closed-form configuration is observed through gridded output
             gridded = kind in ("chain", "sir") and pth % 2 == 1
